@@ -228,6 +228,8 @@ static void ts_lexer__do_advance(Lexer *self, bool skip) {
   }
 
   const TSRange *current_range = &self->included_ranges[self->current_included_range_index];
+  Length position_before_next_range = self->current_position;
+  bool moved_to_next_range = false;
   while (
     self->current_position.bytes >= current_range->end_byte ||
     current_range->end_byte == current_range->start_byte
@@ -241,13 +243,12 @@ static void ts_lexer__do_advance(Lexer *self, bool skip) {
         current_range->start_byte,
         current_range->start_point,
       };
+      moved_to_next_range = true;
     } else {
       current_range = NULL;
       break;
     }
   }
-
-  if (skip) self->token_start_position = self->current_position;
 
   if (current_range) {
     if (
@@ -262,6 +263,16 @@ static void ts_lexer__do_advance(Lexer *self, bool skip) {
     self->data.lookahead = '\0';
     self->lookahead_size = 1;
   }
+
+  // If the text ran out while moving on to later included ranges (they are
+  // empty, or start at or after the end of the input), the lexer has not
+  // really entered them: stay at the end of the last range that held text,
+  // so that no token is reported to reach across the excluded gap.
+  if (moved_to_next_range && ts_lexer__eof(&self->data)) {
+    self->current_position = position_before_next_range;
+  }
+
+  if (skip) self->token_start_position = self->current_position;
 }
 
 // Advance to the next character in the source code, retrieving a new
@@ -316,6 +327,13 @@ static void ts_lexer__mark_end(TSLexer *_self) {
       self->current_position.bytes == current_included_range->start_byte
     ) {
       TSRange *previous_included_range = current_included_range - 1;
+      // Empty ranges in between were stepped over without reading anything.
+      while (
+        previous_included_range > self->included_ranges &&
+        previous_included_range->end_byte == previous_included_range->start_byte
+      ) {
+        previous_included_range--;
+      }
       self->token_end_position = (Length) {
         previous_included_range->end_byte,
         previous_included_range->end_point,
